@@ -16,7 +16,14 @@ Fixpoint leh (np : bool) (h : nat) (l r : ty) {struct h} : Prop :=
     | TUnion ls => forall x, In x ls -> leh np h' x r
     | _ =>
       match r with
-      | TUnion rs => exists x, In x rs /\ leh np h' l x
+      | TUnion rs =>
+          (exists x, In x rs /\ leh np h' l x) \/
+          match l with
+          | TInst c _ => contractible ct c = true /\
+                         exists c', contractible ct c' = true /\ complete ct rs c' = true /\
+                                    (exists v, In (TLit c' v) rs) /\ leh np h' l (TInst c' [])
+          | _ => False
+          end
       | _ =>
         match l, r with
         | TNone, TNone => True
@@ -47,7 +54,14 @@ Definition leh_step (f : ty -> ty -> Prop) (np : bool) (l r : ty) : Prop :=
     | TUnion ls => forall x, In x ls -> f x r
     | _ =>
       match r with
-      | TUnion rs => exists x, In x rs /\ f l x
+      | TUnion rs =>
+          (exists x, In x rs /\ f l x) \/
+          match l with
+          | TInst c _ => contractible ct c = true /\
+                         exists c', contractible ct c' = true /\ complete ct rs c' = true /\
+                                    (exists v, In (TLit c' v) rs) /\ f l (TInst c' [])
+          | _ => False
+          end
       | _ =>
         match l, r with
         | TNone, TNone => True
@@ -77,11 +91,13 @@ Lemma leh_step_mono : forall (f g : ty -> ty -> Prop) np, (forall a b, f a b -> 
 Proof.
   intros f g np Hfg l r H. unfold leh_step in *.
   destruct l; auto;
-    try (destruct r; auto; destruct H as [x [Hx H]]; exists x; split; auto; fail).
-  destruct r; auto; try (destruct H as [x [Hx H]]; exists x; split; auto; fail).
-  destruct H as [[A [B [b [p [Hb [Hp H]]]]]]|[A H]].
-  - left. repeat split; auto. exists b, p. auto.
-  - right. split; auto. intros la ra v Hin. specialize (H la ra v Hin). destruct v; auto. destruct H; auto.
+    try (destruct r; auto; destruct H as [[x [Hx H]]|H]; [left; exists x; split; auto|contradiction]; fail).
+  destruct r; auto.
+  - destruct H as [[A [B [b [p [Hb [Hp H]]]]]]|[A H]].
+    + left. repeat split; auto. exists b, p. auto.
+    + right. split; auto. intros la ra v Hin. specialize (H la ra v Hin). destruct v; auto. destruct H; auto.
+  - destruct H as [[x [Hx H]]|[Hc [c' [H1 [H2 [H3 H4]]]]]]; [left; exists x; split; auto|].
+    right. split; auto. exists c'. auto.
 Qed.
 
 Lemma leh_S : forall np h l r, leh np h l r -> leh np (S h) l r.
@@ -98,10 +114,12 @@ Proof.
   intros np. induction h; intros l r H; [contradiction|].
   rewrite leh_eq in *. unfold leh_step in *.
   destruct l; auto;
-    try (destruct r; auto; destruct H as [x [Hx H]]; exists x; split; auto; fail).
-  destruct r; auto; try (destruct H as [x [Hx H]]; exists x; split; auto; fail).
-  destruct H as [[A _]|[A H]]; [discriminate|].
-  right. split; auto. intros la ra v Hin. specialize (H la ra v Hin). destruct v; auto. destruct H; auto.
+    try (destruct r; auto; destruct H as [[x [Hx H]]|H]; [left; exists x; split; auto|contradiction]; fail).
+  destruct r; auto.
+  - destruct H as [[A _]|[A H]]; [discriminate|].
+    right. split; auto. intros la ra v Hin. specialize (H la ra v Hin). destruct v; auto. destruct H; auto.
+  - destruct H as [[x [Hx H]]|[Hc [c' [H1 [H2 [H3 H4]]]]]]; [left; exists x; split; auto|].
+    right. split; auto. exists c'. auto.
 Qed.
 
 (* a common height for finitely many derivations *)
@@ -133,7 +151,14 @@ Qed.
 Lemma LE_union_r : forall np l rs x, is_atomish l = true -> In x rs -> LE np l x -> LE np l (TUnion rs).
 Proof.
   intros np l rs x A Hx [h H]. exists (S h). rewrite leh_eq. unfold leh_step.
-  destruct l; simpl in A; try discriminate; exists x; auto.
+  destruct l; simpl in A; try discriminate; left; exists x; auto.
+Qed.
+
+Lemma LE_contract : forall np c xs rs c' v, contractible ct c = true -> contractible ct c' = true ->
+  complete ct rs c' = true -> In (TLit c' v) rs -> LE np (TInst c xs) (TInst c' []) -> LE np (TInst c xs) (TUnion rs).
+Proof.
+  intros np c xs rs c' v H1 H2 H3 H4 [h H]. exists (S h). rewrite leh_eq. unfold leh_step.
+  right. split; auto. exists c'. repeat split; auto. exists v; auto.
 Qed.
 
 Definition var_rel (P : ty -> ty -> Prop) (p : ty * ty * variance) : Prop :=
